@@ -15,7 +15,9 @@
 (*              after = the frame follows STARTUP; plainok = an OPTIONS    *)
 (*              body is empty / a STARTUP body parses as a string map      *)
 (*  k = "resp"  negotiated flag body outcome   what the caller got for a   *)
-(*              response frame ("value" | "error" | "crash" | "hang")      *)
+(*              response / pushed frame ("value" | "error" | "crash" | ...)  *)
+(*  k = "srv"   negotiated flag body logical   a frame the re-encoding     *)
+(*              proxy sent to the driver (premise of the resp vectors)     *)
 (* A mismatch prints MONVIOL with the failing aspects; kinds starting with *)
 (* "drift-" do not contradict the property.                                *)
 (***************************************************************************)
@@ -66,7 +68,13 @@ Kinds(r) ==
     [] r.k = "resp" ->
          chk(r.outcome # "crash", "response-crash") \o chk(r.outcome # "hang", "response-hang")
          \o chk(~ResponseMustFail(r.negotiated, r.flag, r.body) \/ r.outcome # "value", "bad-compressed-response-accepted")
-         \o chk(ResponseMustFail(r.negotiated, r.flag, r.body) \/ r.outcome # "error", "drift-good-response-refused")
+         \o chk(~GoodCompressedFrame(r.negotiated, r.flag, r.body) \/ r.outcome = "value", "good-compressed-frame-not-delivered")
+         \o chk(ResponseMustFail(r.negotiated, r.flag, r.body) \/ GoodCompressedFrame(r.negotiated, r.flag, r.body)
+                 \/ r.outcome = "value", "drift-good-response-refused")
+    [] r.k = "srv" ->
+         \* what the proxy put on the wire is what a conforming node sends: plain, or a strictly valid compressed form
+         chk(IF r.flag THEN r.negotiated # "" /\ RefDecode(r.negotiated, r.body, TRUE) = r.logical ELSE r.body = r.logical,
+             "drift-proxy-frame-not-a-valid-form")
     [] OTHER -> <<"drift-unknown-vector">>
 
 Undecided(r) == r.k = "dec" /\ r.panic = "" /\ IsErr(RefDecode(r.alg, r.stream, TRUE)) /\ ~IsErr(RefDecode(r.alg, r.stream, FALSE))
